@@ -484,6 +484,14 @@ impl H {
             }
         }
     }
+    /// Create (without polling) the future of a stop().
+    pub fn make_stop<'a>(&'a self, sh: &Shared) -> Pin<Box<dyn Future<Output = rsactor::Result<()>> + Send + 'a>> {
+        use futures::FutureExt;
+        match self {
+            H::D(r) => r.stop().boxed(),
+            H::E(e) => e.control(sh).stop(),
+        }
+    }
     /// Create (without polling) the future of a tell / tell_with_timeout / ask of an `MU` message.
     pub fn make_u<'a>(&'a self, kind: SendKind, body: Body) -> Pin<Box<dyn Future<Output = Res> + Send + 'a>> {
         use futures::FutureExt;
@@ -586,7 +594,7 @@ impl Drop for CallGuard {
     }
 }
 
-fn to_res<T>(r: rsactor::Result<T>, f: impl FnOnce(T) -> Rep) -> Res {
+pub fn to_res<T>(r: rsactor::Result<T>, f: impl FnOnce(T) -> Rep) -> Res {
     match r {
         Ok(v) => Res::Ok(f(v)),
         Err(e) => {
